@@ -4,6 +4,7 @@
 package world
 
 import (
+	"sync/atomic"
 	"bytes"
 	"context"
 	"encoding/json"
@@ -28,6 +29,9 @@ type Log struct {
 	OnEmit func(Ev)
 }
 
+// responded counts the requests answered so far in this process (progress indicator for the watchdog).
+var responded atomic.Int64
+
 // NewLog creates a log writing NDJSON lines to w (may be nil).
 func NewLog(w io.Writer) *Log { return &Log{w: w} }
 
@@ -37,6 +41,9 @@ func (l *Log) Emit(ev Ev) {
 	defer l.mu.Unlock()
 	l.seq++
 	ev["seq"] = l.seq
+	if ev["ev"] == "Respond" {
+		responded.Add(1)
+	}
 	if l.OnEmit != nil {
 		l.OnEmit(ev)
 	}
